@@ -67,6 +67,7 @@ From Coq Require Import ZArith List Lia Bool.
 From LZ4V Require Import Spec.BlockSpec Spec.XXH32 Spec.FrameSpec Gen.Consts Model.FrameD.
 From LZ4V Require Import Proofs.FrameDHeader Proofs.FrameDProofs Proofs.FrameDSound Proofs.FrameDChunk.
 From LZ4V Require Import Spec.BlockFast Model.FrameDDict Proofs.FrameDDictProofs.
+From LZ4V Require Import Proofs.FrameDDictSession.
 Import ListNotations.
 Local Open Scope Z_scope.
 
@@ -381,3 +382,22 @@ Print Assumptions C08_dict_is_history_refuted.
    overwrite its memory between calls) the last min(dictSize, 64 KB) bytes at dict+dictSize are the end of the
    history and dictSize >= min(64 KB, |history|).  Stated, not proved. *)
 Definition C08_dict_is_history_full_statement : Prop := dict_is_history_full_statement.
+
+(* ==== round 7: the whole-session lift of (a) ============================================================
+   Every memcpy / decoder call of the dictionary bookkeeping, in every LZ4F_decompress / _usingDict call of any
+   API-conforming session on a fresh context (capacities >= 0; a dictionary pointer is NULL only for an empty
+   dictionary; the session ends at the first error), stays inside tmpOutBuffer[0, maxBufferSize) resp. the call's
+   dst window [dst, dst+capacity), memcpy source/destination inside tmpOutBuffer do not overlap, decoded sizes fit.
+   This is C08_tmpOut_in_bounds_full_statement with the dictionary-pointer condition added (without it the literal
+   full statement fails: dict = NULL with dictSize > 0 reaches the decoder). *)
+Theorem C08_tmpOut_in_bounds : forall bdec cs,
+  Forall call_conform cs ->
+  Forall (fun x => let '(s', c, ops) := x in
+                   Forall (op_ok (d_maxBuf s') (dc_dst c) (dc_dst c + dc_cap c)) ops)
+         (dd_session bdec dctx_init dd_init cs).
+Proof. exact tmpOut_in_bounds. Qed.
+Print Assumptions C08_tmpOut_in_bounds.
+(* hypothesis satisfiable: the witness call of C08_dict_is_history_refuted is a conforming session *)
+Example C08_tmpOut_in_bounds_session_example :
+  Forall call_conform [mkDC wit_frame 61441 (mkO false false false) 1000000 None].
+Proof. constructor; [|constructor]. split; [cbn [dc_cap]; lia|cbn [dc_dict]; exact Logic.I]. Qed.
